@@ -546,6 +546,12 @@ func (fr *Frame) applyContract(st *State, ct *FnContract, callee *ssa.Function, 
 		post.vars[k] = v
 	}
 	bindResults(post.vars, sig, res)
+	// ghost updates declared by the contract (keys may name results; right-hand sides read the pre-state)
+	fr.applyGhost(st, ct, &Scope{x: x, vars: post.vars, st: pre, old: pre, pkg: pkg})
+	if hasOpt(ct, "now") && len(res) == 1 {
+		// the result is a reading of the clock: lastnow() refers to it
+		st.Comp["g:lastnow|"+c.sortOf(sig.Results().At(0).Type())] = res[0]
+	}
 	for _, cl := range ct.Ensures {
 		c.assume(implies(st.Reach, post.evalBool(cl.E)))
 	}
